@@ -69,3 +69,17 @@ fn counters_one_region_cover() {
     let total = FrequencyCounter::next_power_2(c);
     kani::cover!(total / 2 == 0, "F-C17-counters-1: counters = 1 gives rows of length 0");
 }
+
+/// a well-formed sketch with total_counters = 2 (one byte per row): arbitrary counters and seeds
+pub(crate) fn arbitrary_sketch_2() -> FrequencyCounter {
+    let b: [u8; 4] = kani::any();
+    FrequencyCounter { matrix: [Row(vec![b[0]]), Row(vec![b[1]]), Row(vec![b[2]]), Row(vec![b[3]])], seeds: kani::any(), total_counters: 2 }
+}
+
+/// a well-formed sketch with total_counters = 4 whose estimate for a hash h is an ARBITRARY value chosen
+/// per class h % 4: row 0 holds four symbolic counters, rows 1-3 are saturated, seeds are zero.
+/// (Cheaper for CBMC than four symbolic rows and seeds, same freedom for the admission logic.)
+pub(crate) fn sketch_with_arbitrary_classes() -> FrequencyCounter {
+    let b: [u8; 2] = kani::any();
+    FrequencyCounter { matrix: [Row(vec![b[0], b[1]]), Row(vec![0xff, 0xff]), Row(vec![0xff, 0xff]), Row(vec![0xff, 0xff])], seeds: [0; 4], total_counters: 4 }
+}
